@@ -7,46 +7,46 @@ EX = "exploration"
 
 # id -> (level, text, note, technique, design_ref)
 CHECKS = {
- "C01": (MC, "Explicit-state BFS over the real PostProof/attest/reward-block handlers from a posted file: every payload kind (valid for the challenged chunk, other chunk, foreign file, broken, truncated) by 3 accounts and a fourth that also signs in capitals, block-gas choices and block boundaries, every transition checked against a reference of who has validly proven (incl. that a prover without a proof since the start of the previous window loses its seat at a reward block); a two-file variant (rewards stay with each file's own provers) and an enumeration that submits leaf-name alias payloads once the chain's own challenge is aliasable (known finding F19); conformance replay and reproduction through signed ABCI blocks.",
+ "C01": (MC, "Explicit-state BFS over the real PostProof/attest/reward-block handlers from a posted file: every payload kind (valid for the challenged chunk, other chunk, foreign file, broken, truncated) by 3 accounts and a fourth that also signs in capitals, block-gas choices and block boundaries, every transition checked against a reference of who has validly proven (incl. that a prover without a proof since the start of the previous window loses its seat at a reward block); a two-file variant (rewards stay with each file's own provers) and an enumeration that submits leaf-name alias payloads once the chain's own challenge is aliasable (known finding F19), and an enumeration that offers every other chunk's proof for every challenged index of a 40-chunk file; conformance replay and reproduction through signed ABCI blocks.",
          "Bounds: 3 provers + a 4th account, one 3-chunk file with replication 3 (two-file variant: a second file with replication 1), a 130-chunk file for the aliasing enumeration; depth bound reported in evidence; SHA-256/SHA3 collision freedom.", "explicit-state model checking of the real handlers (BFS, canonical store hash)", "DESIGN.md §4 C01"),
  "C03": (MC, "Bounded-exhaustive construction of the configuration at a reward block through real messages and blocks (every ordering of every subset of 3 provers x every failing subset x sizes x gauges x 1-2 files, sizes near 2^63, the ProofWindow parameter raised after posting, a gauge of a third denomination whose shares round to zero, a third abandoned file dropped at the block under test), oracle on removals, burn counters and per-denomination payouts; violations reproduced through signed ABCI blocks.",
          "Share denominator may be listed or credited bytes; ProofWindow 3 / CheckWindow 2.", "exhaustive enumeration of reward-block configurations on the real code", "DESIGN.md §4 C03"),
- "C08": (MC, "BFS over 91 name-service events per state by 3 accounts on 2 names (one expiring inside the horizon); (names also spelled with capitals and with inner spaces, Init, paid names equal to generated free names, a record labelled like another name and messages on its dotted path); every transition checked: a live name changes owner only by its owner's transfer/accept or a purchase through the owner's own listing, with full payment to the previous owner.",
+ "C08": (MC, "BFS over 91 name-service events per state by 3 accounts on 2 names (one expiring inside the horizon); (names also spelled with capitals and with inner spaces, Init, paid names equal to generated free names, a record labelled like another name and messages on its dotted path, a bid in another denomination, acceptance of one's own bid); every transition checked: a live name changes owner only by its owner's transfer/accept or a purchase through the owner's own listing, with full payment to the previous owner.",
          "3 principals, 2 names, height == Expires unspecified; depth bound in evidence.", "explicit-state model checking of the real handlers", "DESIGN.md §4 C08"),
- "C09": (MC, "BFS over bid/cancel/accept/register/list/buy/transfer with repeated bids in two denominations, mixed-case spellings, a bid above 2^63-1, a bid larger than a name's price with a registrant that cannot pay, and transactions of two messages whose second fails; every transition checked for delta(module balance) = delta(sum of open bids) and exact refunds/payouts against an escrow reference model.",
+ "C09": (MC, "BFS over bid/cancel/accept/register/list/buy/transfer with repeated bids in two denominations, mixed-case spellings, a bid above 2^63-1, a bid larger than a name's price with a registrant that cannot pay, acceptance of one's own bid, and transactions of two messages whose second fails; every transition checked for delta(module balance) = delta(sum of open bids) and exact refunds/payouts against an escrow reference model.",
          "3 principals, 2 names, 3 bid values.", "explicit-state model checking of the real handlers", "DESIGN.md §4 C09"),
- "C10": (MC, "BFS from a seeded tree over all file-tree messages by owner/editor/viewer/stranger including crafted separator-containing fields and access ids that differ from a real one only in the case of their hex digits or extend one by two digits; the whole Files store after every transition must equal a harness-computed functional reference and unauthorised messages must fail.",
+ "C10": (MC, "BFS from a seeded tree over all file-tree messages by owner/editor/viewer/stranger including crafted separator-containing fields and access ids that differ from a real one only in the case of their hex digits or extend one by two digits, and keys holding JSON metacharacters; the whole Files store after every transition must equal a harness-computed functional reference and unauthorised messages must fail.",
          "4 principals, 4 paths; SHA-256 collision freedom.", "explicit-state model checking against a functional reference model", "DESIGN.md §4 C10"),
- "C13": (EX, "Exhaustive product of mint parameter sets x seeded previous emission x consecutive blocks (also started at heights 8 and 98, where the number of digits of the height changes, and 14397, across the day boundary) through the real jklmint BeginBlocker on the real bank keeper; supply growth, monotonicity, non-negativity, per-account split and remainder checked per block; whole-app blocks at the ABCI seam.",
+ "C13": (EX, "Exhaustive product of mint parameter sets x seeded previous emission x consecutive blocks (also started at heights 8 and 98, where the number of digits of the height changes, and 14397, across the day boundary; also with the stipend paid into the developer-grants account) through the real jklmint BeginBlocker on the real bank keeper; supply growth, monotonicity, non-negativity, per-account split and remainder checked per block; whole-app blocks at the ABCI seam.",
          "Value alphabets as listed in evidence; module seam for the split.", "exhaustive enumeration of parameter sets x block runs", "DESIGN.md §4 C13"),
- "C15": (MC, "Volume enumeration (99/100/101/130 providers: listing count and sum, module restart, every shutdown) and BFS over init/shutdown by 3 accounts (one under-funded; one also signing in capitals) x collateral-price changes x a plain and a referred storage purchase x a 32-byte account whose address string extends another's (acting through unsigned, contract-dispatched messages); the reachable space under the alphabet saturates (complete), every transition checked against a reference of recorded collateral; conformance replay at the ABCI seam.",
+ "C15": (MC, "Volume enumeration (99/100/101/130 providers: listing count and sum, module restart, every shutdown), a variant in which a registered provider lapses on three files, and BFS over init/shutdown by 3 accounts (one under-funded; one also signing in capitals) x collateral-price changes x a plain and a referred storage purchase x a 32-byte account whose address string extends another's (acting through unsigned, contract-dispatched messages); the reachable space under the alphabet saturates (complete), every transition checked against a reference of recorded collateral; conformance replay at the ABCI seam.",
          "3 registrants, price alphabet {p,2p,p/2}.", "explicit-state model checking to a fixpoint", "DESIGN.md §4 C15"),
- "C16": (EX, "Full product of names (length 1..6/8, both TLDs, case/space variants) x years x registrants, and of genesis-seeded names (long expired, expired a year ago, expiring in 3 blocks, live) x block offsets x owner/other; register-twice sequences with capital-spelled signers; Init at heights whose generated starter name is a paid live name; price from a frozen table, expiry, resolution and the owner's renewal checked; all cases also run through signed ABCI blocks.",
+ "C16": (EX, "Full product of names (length 1..6/8, both TLDs, case/space variants) x years x registrants, and of genesis-seeded names (long expired, expired a year ago, expiring in 3 blocks, live) x block offsets x owner/other; register-twice sequences with capital-spelled signers; Init at heights whose generated starter name is a paid live name; live names that are listed for sale or carry bids; price from a frozen table, expiry, resolution and the owner's renewal checked; all cases also run through signed ABCI blocks.",
          "Price table frozen in the harness; height == Expires unspecified.", "exhaustive input enumeration on the real handlers", "DESIGN.md §4 C16"),
- "C18": (MC, "BFS over create/delete/block-senders/name-transfer/NextBlock (6 s and 300 ms) and one restart of the module from its own exported genesis, among 3 accounts (also signing in capitals), a 32-byte recipient whose address string extends another's, and a name; after every transition every inbox is read through the gRPC query and compared entry by entry with a reference inbox.",
+ "C18": (MC, "BFS over create/delete/block-senders/name-transfer/NextBlock (6 s and 300 ms) and one restart of the module from its own exported genesis, among 3 accounts (also signing in capitals), a 32-byte recipient whose address string extends another's, deletes with crafted and path-stepping sender strings, and a name; after every transition every inbox is read through the gRPC query and compared entry by entry with a reference inbox.",
          "Identity of a notification = (recipient, sender, time); 3 principals.", "explicit-state model checking against a reference model", "DESIGN.md §4 C18"),
- "C20": (EX, "Every segment sequence of length 1..4 (5 thorough) over 12 segments (incl. '.', '..' and two Unicode spellings of one visible name): MerklePath vs an independent fold, trailing-slash neutrality, parent/child derivation, pairwise-distinct addresses; every depth 1..260; 216 folder chains posted through the real handlers.",
+ "C20": (EX, "Every segment sequence of length 1..4 (5 thorough) over 14 segments (incl. '.', '..', '%' and two Unicode spellings of one visible name): MerklePath vs an independent fold, trailing-slash neutrality, parent/child derivation, pairwise-distinct addresses; every depth 1..260; 216 folder chains posted through the real handlers.",
          "SHA-256 collision freedom; unspecified boundary cases listed in DESIGN.md.", "exhaustive input enumeration", "DESIGN.md §4 C20"),
 }
 
 CHECKS.update({
- "C02": (EX, "Two exhaustive enumerations on the real code: (1) every file size 1..4c+1 for six chunk sizes x 64 consecutive challenge seeds x 3 prove/re-challenge rounds through PostFile/PostProof (tree cross-checked with the repository's BuildTree); (2) proof window x check window x every file start phase x every join height x every placement vector of one proof per window (and, for joins in the posting block, the same with the owner posting the file again in that block); (3) two files with out-of-phase proof windows in both walk orders, each with its own honest prover; (4) the honest prover also owns a file whose prover stops proving, advanced block by block through the whole application's BeginBlocker; prover must stay listed and unburned.",
+ "C02": (EX, "Two exhaustive enumerations on the real code: (1) every file size 1..4c+1 for six chunk sizes x 64 consecutive challenge seeds x 3 prove/re-challenge rounds through PostFile/PostProof (tree cross-checked with the repository's BuildTree); (2) proof window x check window x every file start phase x every join height x every placement vector of one proof per window (and, for joins in the posting block, the same with the owner posting the file again in that block); (3) two files with out-of-phase proof windows in both walk orders, each with its own honest prover; (4) the honest prover also owns a file whose prover stops proving, (5) it shares a file with two lapsing provers at every list position, files of 40 and 130 chunks, advanced block by block through the whole application's BeginBlocker; prover must stay listed and unburned.",
          "Windows I<=4 quick / <=5 thorough; 3-4 windows; periodicity argument for start phases.", "exhaustive enumeration of challenge seeds and proof-placement schedules", "DESIGN.md §4 C02"),
  "C04": (EX, "Full product of plan states x price feeds x ratio parameters x sizes x durations x referral kinds x recipient (also spelled in capitals) x payer balance (about 1e5 purchases) plus pay-once posts and same-block duplicates, each on a fresh branch, with a funded collateral escrow standing by; all balances and total supply snapshotted before/after and every clause of the statement checked; representative cases re-run through signed ABCI blocks.",
          "The chain's own price functions on the pre-state are the reference for 'the price the chain computes'.", "exhaustive input enumeration with full-balance-sheet oracle", "DESIGN.md §4 C04"),
- "C05": (MC, "BFS over boundary-valued messages of the storage and oracle modules (incl. tokens sent into a gauge's escrow account by referral or bank transfer) and block boundaries with extreme time steps; after every accepted transaction three further blocks are processed on a fork; the whole application's BeginBlocker/EndBlocker must not panic (differential against the same blocks without messages); plus a bounded-exhaustive enumeration of reward-block configurations (up to 3-4 files, extreme sizes, one or two provers, a capital-spelled prover proving twice; 2-4 identical purchases in one block); panics are reproduced through real BeginBlock at the ABCI seam.",
+ "C05": (MC, "BFS over boundary-valued messages of the storage and oracle modules (incl. tokens sent into a gauge's escrow account by referral or bank transfer) and block boundaries with extreme time steps; after every accepted transaction three further blocks are processed on a fork; the whole application's BeginBlocker/EndBlocker must not panic (differential against the same blocks without messages); plus a bounded-exhaustive enumeration of reward-block configurations (up to 3-4 files, extreme sizes, one or two provers, a capital-spelled prover proving twice; 2-4 identical purchases in one block; a 2^45 replication count); panics are reproduced through real BeginBlock at the ABCI seam.",
          "Value alphabets listed in evidence; one idle genesis validator.", "explicit-state model checking with look-ahead and differential oracle", "DESIGN.md §4 C05"),
- "C06": (MC, "For every history of a bounded history set, the real ABCI pipeline is executed on a fresh node once per choice vector (<=1 quick / <=2 thorough deviations) of the instrumented nondeterminism seams - every permutation of every map iteration reached, two wall-clock bases on either side of all chain times (time.Now/Since/Until), two RNG seeds, two host time zones, a restart of the process after each committed block, every transaction first simulated on the node - and the observation logs (AppHash per block, tx code/gas/events/data, block events) must be identical. The instrumentation is regenerated from the current tree on every run (go build -overlay), so a new map range or clock read becomes a choice point automatically.",
+ "C06": (MC, "For every history of a bounded history set (all template sequences of a mixed scenario incl. rejected transactions, plus search-tree paths of seven other scenarios), the real ABCI pipeline is executed on a fresh node once per choice vector (<=1 quick / <=2 thorough deviations) of the instrumented nondeterminism seams - every permutation of every map iteration reached, two wall-clock bases on either side of all chain times (time.Now/Since/Until), two RNG seeds, two host time zones, a restart of the process after each committed block, every transaction first simulated on the node, the garbage collector run before every transaction - and the observation logs (AppHash per block, tx code/gas/events/data, block events) must be identical. The instrumentation is regenerated from the current tree on every run (go build -overlay), so a new map range or clock read becomes a choice point automatically.",
          "Sources of nondeterminism = the seamgen inventory over x/, app/, wasmbinding/, types/; SDK/Tendermint/wasmvm internals assumed deterministic; two-process un-instrumented run is a secondary net only.", "stateless exploration of nondeterministic choices (controlled map order / clock / RNG) on the real ABCI pipeline", "DESIGN.md §4 C06"),
- "C07": (MC, "BFS over buy/upgrade, plan-paid and pay-once posts (incl. the same key twice in a block, the largest accepted size, a negative expiry, and the same posts made through the wasm binding with negative/overflowing sizes), plus a seeded variant (a pay-once file walked first, a plan-paid file, each with a prover, and a genesis pay-once file past its paid term; up to 7 blocks), deletes by owner and non-owner, a prover joining, one-day blocks (reward blocks drop prover-less files) and a 31-day block (expiry); every transition: delta(SpaceUsed) = delta(footprint of the account's live plan-paid files), bounds, refused posts.",
+ "C07": (MC, "BFS over buy/upgrade (also for another account), plan-paid and pay-once posts (incl. the same key twice in a block, the largest accepted size, a negative expiry, and the same posts made through the wasm binding with negative/overflowing sizes), plus a seeded variant (a pay-once file walked first, a plan-paid file, each with a prover, and a genesis pay-once file past its paid term; up to 7 blocks), deletes by owner and non-owner, a prover joining, one-day blocks (reward blocks drop prover-less files) and a 31-day block (expiry); every transition: delta(SpaceUsed) = delta(footprint of the account's live plan-paid files), bounds, refused posts.",
          "2 accounts, <=4 posts, <=6 blocks per history.", "explicit-state model checking of the real handlers", "DESIGN.md §4 C07"),
- "C11": (MC, "All 45 registered message types (cross-checked with the Msg service descriptors): every assignment of distinct addresses to their string fields gives GetSigners=[creator] and a routable handler; three signed transactions per type through the real ante handler (other field's key, creator+extra, creator); BFS over owner-only messages (and a post of the same content in the same block) replayed by a non-owner with every record of the owner compared byte for byte; wasm binding post in own/foreign name.",
+ "C11": (MC, "All 45 registered message types (cross-checked with the Msg service descriptors): every assignment of distinct addresses to their string fields gives GetSigners=[creator] and a routable handler; three signed transactions per type through the real ante handler (other field's key, creator+extra, creator); BFS over owner-only messages (and a post of the same content in the same block, and an account whose address string ends in 'jkl' while O holds the name spelled like it) replayed by non-owners with every record of the owner compared byte for byte; wasm binding post in own/foreign name.",
          "Records of O = keys/values containing O's address and the feed it created.", "exhaustive enumeration of message types x field assignments + explicit-state search", "DESIGN.md §4 C11"),
- "C12": (EX, "Gauge amounts x denominations x durations x concurrent gauges x every weakly increasing sequence of reward-block times from a 9-point alphabet through the storage BeginBlocker, and gauges created by real BuyStorage transactions (incl. two and three identical purchases in one block, with and without a restart of the storage module from its own exported genesis; gauges opened later that end together with the first) through the whole application at both seams; cumulative release vs exact integer pro-rata, monotonicity, cap, nothing outside the interval, conservation into the reward pool.",
+ "C12": (EX, "Gauge amounts x denominations x durations x concurrent gauges x every weakly increasing sequence of reward-block times from a 9-point alphabet through the storage BeginBlocker, and gauges created by real BuyStorage transactions (incl. two and three identical purchases in one block, with and without a restart of the storage module from its own exported genesis; gauges opened later that end together with the first; gauges without ujkl) through the whole application at both seams; cumulative release vs exact integer pro-rata, monotonicity, cap, nothing outside the interval, conservation into the reward pool.",
          "Rounding direction of a fractional microsecond unspecified; remainder after end unspecified.", "exhaustive enumeration of reward-time schedules", "DESIGN.md §4 C12"),
- "C14": (MC, "For six (form size, minimum) settings: BFS over form requests, Attest and Report by eligible, same-domain, proof-less, unregistered and self signers incl. repeats and never-requested forms, at several heights, and, in an extra variant, a second pair of forms about another prover, one restart of the storage module from its own exported genesis (open forms must survive byte-identically) and a provider whose only proof can disappear inside the block; reference = set of distinct named signers; ineffective signatures must leave the store byte-identical and forms must name only registered proof holders other than the prover.",
+ "C14": (MC, "For six (form size, minimum) settings: BFS over form requests, Attest and Report by eligible, same-domain, proof-less, unregistered and self signers incl. repeats and never-requested forms, at several heights, and, in an extra variant, a second pair of forms about another prover, one restart of the storage module from its own exported genesis (open forms must survive byte-identically) a provider whose only proof can disappear inside the block, and named providers that deregister; reference = set of distinct named signers; ineffective signatures must leave the store byte-identical and forms must name only registered proof holders other than the prover.",
          "7 signers, one file.", "explicit-state model checking against a reference model", "DESIGN.md §4 C14"),
- "C17": (MC, "BFS from two seeded files with provers over post/delete/proof (also signed in capitals)/attest/report/shutdown/reward blocks and one 31-day block; list entries are compared as accounts; the index and prover-list invariant is evaluated in every reached state through raw store iteration and through the gRPC queries.",
+ "C17": (MC, "BFS from two seeded files with provers over post/delete/proof (valid, invalid, signed in capitals)/attest/report/shutdown/reward blocks and one 31-day block; list entries are compared as accounts; the index and prover-list invariant is evaluated in every reached state through raw store iteration and through the gRPC queries.",
          "<=4 posts, <=6 blocks per history.", "explicit-state model checking of a state invariant", "DESIGN.md §4 C17"),
  "C19": (MC, "BFS over one event per record kind of the six modules in every prerequisite-respecting order, and from a state holding one record of every kind over the events that add a second instance; volume cases with 130 records of every kind; every module's parameters are compared too (with parameter-change events); in every reached state each module is exported, JSON round-tripped, validated, imported into a fresh node and compared record kind by record kind, and re-exported; selected histories are committed at the ABCI seam, exported with ExportAppStateAndValidators and imported by InitChain on a fresh node. Five record kinds without a genesis field are listed as known findings; any other loss is a violation.",
          "A record that exists only after the import is a violation unless it is a materialised ActiveProviders entry; violations keyed by (store, record-kind prefix).", "explicit-state model checking with export/import round trip in every state", "DESIGN.md §4 C19"),
